@@ -44,6 +44,7 @@ def run(ctx):
         if c not in ("nodef",):
             ctx.guard("C02", "easy", lambda: effbs.string_front_end(ctx, prog))
         ctx.guard("C02", "const values", lambda: data.const_census(ctx, prog, data.CONST_SCOPES["C02"], floor=1))
+        ctx.guard("C02", "panic conditions", lambda: beliefs.live_census(ctx, prog, beliefs.SCOPES["C02"][0]))
         ctx.guard("C02", "element-asserts", lambda: validate.element_range_asserts(ctx, prog))
         ctx.guard("C02", "initialisers", lambda: typestate.initialisers_complete(ctx, prog))
         ctx.guard("C02", "summaries", lambda: summary.check(ctx, prog, 'internals::compare::|compare_easy::', floor=10))
